@@ -315,7 +315,8 @@ def c16_check(tier, replay=None):
     if serial_bad:
         idx = serial_bad[0]
         if idx >= 1000000:  # role classes of the native pass
-            cls, real_idx = ("owner", idx - 2000000) if idx >= 2000000 else ("rounds", idx - 1000000)
+            cls, real_idx = (("handoff", idx - 3000000) if idx >= 3000000 else
+                             ("owner", idx - 2000000) if idx >= 2000000 else ("rounds", idx - 1000000))
         else:
             cls, real_idx = ["race", "general", "pool", "late", "shared", "deep"][idx % 6], idx
         scen = scenario_json(native, ["--seed", str(sd), "--index", str(real_idx), "--class", cls])
@@ -359,6 +360,10 @@ def c16_check(tier, replay=None):
                 # to parse near the end of a long text
                 ("sync", "badpool", 12, (0, 8), "0.1"),
                 ("sync", "badpool", 12, (8, 14), "0.02"),
+                # values and compiled expressions produced on one thread, searched again and
+                # dropped (possibly the last reference) on another
+                ("sync", "handoff", 13, (0, 5), "0.1"),
+                ("sync,specialized", "handoff", 14, (0, 3), "0.1"),
                 ("sync,specialized", "race", 4, (0, 3), "0.3"),
                 ("sync,specialized", "general", 6, (0, 4), "0.05")]
     else:
@@ -381,10 +386,10 @@ def c16_check(tier, replay=None):
         plan.append(("sync", "manytexts", 230, (0, 8), "0.1"))
         plan.append(("sync", "longrun", 240, (0, 4), "0.1"))
         plan.append(("sync", "bigproj", 250, (0, 8), "0.1"))
-        for k, cls in enumerate(("owner", "rounds", "badpool")):
+        for k, cls in enumerate(("owner", "rounds", "badpool", "handoff")):
             for j, rate in enumerate(("0.1", "0.02", "0.5")):
                 plan.append(("sync", cls, 260 + 3 * k + j, (0, 12), rate))
-            plan.append(("sync,specialized", cls, 270 + k, (0, 8), "0.1"))
+            plan.append(("sync,specialized", cls, 280 + k, (0, 8), "0.1"))
         plan.append(("sync", "bigproj", 251, (0, 8), "0.5"))
     execs = 0
     orders = set()
@@ -448,7 +453,8 @@ def c16_check(tier, replay=None):
                 "no data race, deadlock, UB or panic and the result must equal the sequential native run. Role classes: 'owner' "
                 "(the main thread, which compiled the shared expressions, searches them next to the spawned threads), 'rounds' "
                 "(long-lived threads; the main thread drops and re-compiles generations of shared expressions between "
-                "rendezvous), 'badpool' (lockstep compiles of the same texts, half of them failing to parse), 'bigproj' "
+                "rendezvous), 'badpool' (lockstep compiles of the same texts, half of them failing to parse), 'handoff' (result values and compiled "
+                "expressions made on one thread, searched again and dropped on another), 'bigproj' "
                 "(thousands of elements; Miri reports 8 CPUs). distinct = "
                 "distinct (scenario, completion order of all operations) pairs observed; non-trivial = the same (a different "
                 "completion order is a different interleaving).",
